@@ -33,6 +33,9 @@ for sid in sorted(os.listdir(S)):
         meta["status"] = "imported, my own confirmation still running / not done"
     elif conf["demo_exit_clean"] == 0 and conf["demo_exit_patched"] != 0 and conf["pinned_tests_exit_patched"] == 0:
         meta["status"] = "confirmed: demo passes clean, fails patched, pinned tests pass patched"
+    elif conf["demo_exit_clean"] == 0 and conf["demo_exit_patched"] != 0 and conf["pinned_tests_exit_patched"] == -1:
+        meta["status"] = ("demo confirmed by me (passes clean, fails patched); the pinned tests with the patch were run by the sub-agent only "
+                          "(pytest_patched.log, 53 passed) - my own run did not fit into the remaining time")
     else:
         meta["status"] = "NOT confirmed as a valid seed: %s" % conf
     json.dump(meta, open(os.path.join(d, "meta.json"), "w"), indent=1)
